@@ -172,6 +172,25 @@ def initiator_side(v, tier):
                             {'opts': opts, 'first': [p['t'] for p in a['payloads']], 'retry': [p['t'] for p in b['payloads']], 'mid': b['mid']},
                             signature={'component': 'cookie:retry'})
                 continue
+            # several cookies: the responder changes its secret (rotation / restart) before the retry arrives and hands out ANOTHER cookie - the initiator
+            # repeats the same request again with the cookie it received last placed first
+            if opts.get('v6') or not opts:
+                w.ctl['B'].cookie_secret = bytes(reversed(bytes(w.ctl['B'].cookie_secret))) + b'\x01'
+                reply2 = w.dispatch('B', retry, 'A')
+                m2 = W.dec_message(bytes(reply2))
+                if [p['t'] for p in m2['payloads']] != [W.NOTIFY] or m2['payloads'][0]['ntype'] != 16390 or m2['payloads'][0]['data'] == m['payloads'][0]['data']:
+                    raise common.MachineryError('the responder did not hand out a different cookie after its secret changed')
+                retry2 = w.dispatch('A', bytes(reply2), 'B')
+                c = W.dec_message(bytes(retry2)) if retry2 is not None else None
+                cookies = [p['data'] for p in c['payloads'] if p['t'] == W.NOTIFY and p['ntype'] == 16390] if c else []
+                rest = [p for p in c['payloads'] if not (p['t'] == W.NOTIFY and p['ntype'] == 16390)] if c else []
+                # (the implementation leaves the earlier cookie behind the new one; the responder looks at the first - the property asks for "the cookie placed first")
+                if c is None or not cookies or cookies[0] != m2['payloads'][0]['data'] or c['payloads'][0]['t'] != W.NOTIFY or rest != a['payloads']:
+                    v.violation('after a second, different COOKIE the retry does not carry that cookie first (and the identical request behind it)',
+                                {'opts': opts, 'cookies_in_retry': len(cookies), 'is_latest': bool(cookies) and cookies[0] == m2['payloads'][0]['data']},
+                                signature={'component': 'cookie:second'})
+                    continue
+                retry = bytes(retry2)
             s = session.Session(w)
             kinds = s.run('A', retry)
             s.judge()
